@@ -758,6 +758,11 @@ func (e *Enc) typeInv(term string, t types.Type) string {
 	switch e.W.sortOf(t) {
 	case "Slice":
 		return app("wfslice", term)
+	case "Str":
+		// the length of a string value of the program fits an int (a resource fact about Go
+		// strings; abstract strings of the specification language are not bounded - a global
+		// bound would contradict the concatenation and conversion axioms)
+		return app("<=", app("slen", term), "9223372036854775807")
 	}
 	switch types.Unalias(t).Underlying().(type) {
 	case *types.Map, *types.Chan:
